@@ -41,11 +41,13 @@ def make_base(kind, seed, workdir):
     """Create an initial metafile; returns raw bytes.  kind = (version, opts)
     with version in v1|v2|hy and opts in bare|full|foreign."""
     ver, opts = kind
-    if opts == "big":
-        # a metafile of about 20 KiB (longer than the I/O buffer sizes)
-        pieces = world.content(seed, 77, 1000 * 20)
+    if opts in ("big", "huge"):
+        # a metafile of about 20 KiB (longer than the I/O buffer sizes) /
+        # of about 140 KiB (longer than two 64 KiB blocks)
+        n = 1000 if opts == "big" else 7000
+        pieces = world.content(seed, 77, n * 20)
         return bencode.encode({b"info": {
-            b"name": b"big", b"piece length": P0, b"length": 1000 * P0,
+            b"name": b"big", b"piece length": P0, b"length": n * P0,
             b"pieces": pieces}, b"announce": b"http://t/a"})
     bw = base_world(seed)["unsorted"]
     files = world.files_of(bw, seed)
@@ -873,6 +875,18 @@ C17_REQUESTS = [
 ]
 
 
+def whole_document(new, raw0):
+    """new is a complete bencoded document carrying raw0's piece data."""
+    try:
+        d_new = bencode.plain(bencode.decode(new, strict=False))
+        d_old = bencode.plain(bencode.decode(raw0, strict=False))
+    except Exception:  # noqa
+        return False
+    return all(d_new.get(b"info", {}).get(k) == d_old.get(b"info", {}).get(k)
+               for k in (b"pieces", b"file tree", b"name")) and \
+        d_new.get(b"piece layers") == d_old.get(b"piece layers")
+
+
 class EditFaults:
     def __init__(self):
         self.id = "C17"
@@ -903,12 +917,12 @@ class EditFaults:
         gs = []
         for ver in ("v1", "v2", "hy"):
             for opts in ("bare", "full", "bare-symlink", "bare-otheruid",
-                         "bare-readonly", "bare-hardlink", "big"):
+                         "bare-readonly", "bare-hardlink", "big", "huge"):
                 if opts.startswith("bare-") and ver != "hy":
                     continue
                 if opts == "bare-otheruid" and os.geteuid() != 0:
                     continue    # needs chown
-                if opts == "big" and ver != "v1":
+                if opts in ("big", "huge") and ver != "v1":
                     continue
                 for name, _ in C17_REQUESTS:
                     for route in ("lib",) + (("cli",) if not
@@ -1010,6 +1024,15 @@ class EditFaults:
                         f"unowned filesystem mutation: {miss}")
                 if r["outcome"] == "returned" and r["final"][0] == "file":
                     new = r["final"][1]
+                    # "the complete edited one": a whole bencoded document
+                    # that still carries the info dictionary of the original
+                    if not whole_document(new, raw0):
+                        res.violation(
+                            f"C17|{g['route']}|metafile-truncated|returned|"
+                            f"none:|{'unencodable' if unenc else 'encodable'}",
+                            case, {"fault": None, "outcome": r["outcome"],
+                                   "final": ("file", len(new))})
+                        new = None
                 res.extra["fs_operations_in_fault_free_run"] += len(
                     r["shim"].log)
                 res.sample({"request": g["req"], "base": g["base"],
@@ -1069,6 +1092,8 @@ class EditFaults:
         r0 = self.one_run(run0, raw0, case["req"], case["route"], ks, symlink,
                           variant)
         new = r0["final"][1] if r0["final"][0] == "file" else None
+        if new is not None and not whole_document(new, raw0):
+            new = None
         run = e2.Run(prefix)
         r = self.one_run(run, raw0, case["req"], case["route"], ks, symlink,
                          variant)
